@@ -88,6 +88,7 @@ func current() *World {
 }
 
 func installHooks() {
+	s3db.VerifDeterministicMarshal = true
 	kv.VerifS3 = func(S3 kv.S3Interface, st *kv.S3BucketInfo) kv.S3Interface {
 		if st == nil || !strings.HasPrefix(st.EndpointURL, EndpointScheme) {
 			return S3
